@@ -147,6 +147,23 @@ pub(crate) fn set_lum(c: &mut [f64; 3], l: f64) {
     c[2] += d;
     clip_color(c);
 }
+/// the channel indices that Aseprite's lvalue macros MIN / MID / MAX select in set_sat (0 = r, 1 = g, 2 = b)
+pub(crate) fn set_sat_indices(r: f64, g: f64, b: f64) -> (usize, usize, usize) {
+    let c = [r, g, b];
+    let inner_min = if g < b { 1 } else { 2 };
+    let min = if r < c[inner_min] { 0 } else { inner_min };
+    let mid = if r > g {
+        if g > b { 1 } else if r > b { 2 } else { 0 }
+    } else if g > b {
+        if b > r { 2 } else { 0 }
+    } else {
+        1
+    };
+    let inner_max = if g > b { 1 } else { 2 };
+    let max = if r > c[inner_max] { 0 } else { inner_max };
+    (min, mid, max)
+}
+
 /// set_sat with Aseprite's lvalue macros MIN / MID / MAX (the documented, deliberately reproduced quirk:
 /// when r == g < b the three references do not denote three distinct channels).
 pub(crate) fn set_sat(c: &mut [f64; 3], s: f64) {
